@@ -537,6 +537,27 @@ def log_latch_scenarios(ctx):
     return gen_free(ctx, 2, 12, 16, [8], opts="logfull=1 logger=3")
 
 
+def refresh_isolation(ctx, drv):
+    """"... while the group map is being refreshed": membership lookups (and a SIGHUP) issued from INSIDE a running refresh of the real
+    gids.c / hash.c (C17's harness with scripted databases): every answer must be the one the old map gives - what some serial order of
+    {refresh, lookup} produces - never 'no map' or a half-built one; after the refresh the new map answers.  (The request harness above
+    uses a stub gids_is_member; this ties the statement's refresh clause to the real code.)"""
+    from . import c17
+    from ..gen import g_gids
+    if not g_gids.generate(ctx):
+        return
+    h, heb = c17.build_all(ctx)
+    if not h or not heb:
+        return
+    g = c17.Gen(ctx, getattr(ctx, "gids_consts", {}))
+    ops = [g.interleave() for _ in range(400 if ctx.tier == "thorough" else 50)]
+    for o in ops:
+        ctx.distinct(o)
+    ctx.sample(ops[0][:300])
+    ctx.dist("refresh_isolation_scenarios", len(ops))
+    c17.run_streams(ctx, ops, h, heb, drv or "/bin/cat", tag="-during-refresh")
+
+
 def run(ctx):
     ctx.rule = ("concurrent scenarios for the real job.c/dec.c/enc.c/replay.c/hash.c/log.c (harness/h_sys.c) : FORCED schedules = random "
                 "interleavings of the 7-step programs of 2..5 requests (decodes sharing a credential, encodes, gid-map-authorised, expired, "
@@ -578,6 +599,7 @@ def run(ctx):
     ctx.sample(free[0].line()[:400])
     run_stream(ctx, "free", free, h, None, what)
     descriptor_ownership(ctx)
+    refresh_isolation(ctx, drv)
     # ---- ThreadSanitizer: thorough always; quick when the generator / the generated-data theorems broke
     gen_broken = [o for o in ctx.obligations if o["kind"] == "gen" and not o["ok"]]
     thm_broken = [f for f in failed if any(x in f for x in ("shared_vars_covered", "request_path", "shared_calls", "steps_are"))]
